@@ -414,6 +414,7 @@ def dec_c40_automaton(f, rule, base, shift3):
     need(body is not None, rule, fn, "(loop over the three values)")
     ps = [p["pat"]["name"] for p in b["params"]]
     shift_name = upper_name = None
+    shift_enum = None
     for st in b["body"]["stmts"]:
         if st["k"] == "Let" and st["pat"].get("k") == "Bind":
             n = st["pat"]["name"]
@@ -421,6 +422,13 @@ def dec_c40_automaton(f, rule, base, shift3):
             # the two state variables by role: `let mut <shift set> = 0`, `let mut <upper shift pending> = false`
             if T.is_mut_binding(st["pat"]) and init.get("k") == "Lit" and init.get("int") == 0 and "bool" not in init and shift_name is None:
                 shift_name = n
+            # the shift set as a private four-variant enum (declaration order = base set, shift 1, 2, 3)
+            if T.is_mut_binding(st["pat"]) and init.get("k") == "Adt" and shift_name is None:
+                ad = f.adts.get(T.canon(str(init.get("adt", ""))))
+                if ad and ad.get("kind") == "Enum" and len(ad["variants"]) == 4 and all(not v0.get("fieldtys") for v0 in ad["variants"]) \
+                        and init.get("variant") == sorted(ad["variants"], key=lambda v0: v0["idx"])[0]["name"]:
+                    shift_name = n
+                    shift_enum = (T.canon(str(init["adt"])), [v0["name"] for v0 in sorted(ad["variants"], key=lambda v0: v0["idx"])])
             if T.is_mut_binding(st["pat"]) and init.get("k") == "Lit" and init.get("bool") is False and upper_name is None:
                 upper_name = n
     need(shift_name and upper_name, rule, fn, "(shift / upper_shift state variables)")
@@ -429,14 +437,18 @@ def dec_c40_automaton(f, rule, base, shift3):
         for up in (False, True):
             for v in range(256):
                 sink = []
-                env = {chname: v, shift_name: sh, upper_name: up, ps[2]: base, ps[3]: shift3, ps[1]: "OUT", ps[0]: "DATA"}
+                sh_val = {"__adt__": shift_enum[0], "__variant__": shift_enum[1][sh]} if shift_enum else sh
+                env = {chname: v, shift_name: sh_val, upper_name: up, ps[2]: base, ps[3]: shift3, ps[1]: "OUT", ps[0]: "DATA"}
                 fo = T.Folder(f, env=env, on_call=_push_hook(sink), effects=True)
                 try:
                     try:
                         fo.fold(body)
                     except T.ContinueEx:
                         pass            # `continue` ends the handling of this value like reaching the end of the body
-                    tab[(sh, up, v)] = (tuple(sink), fo.env[shift_name], fo.env[upper_name])
+                    new_sh = fo.env[shift_name]
+                    if shift_enum and isinstance(new_sh, dict) and new_sh.get("__variant__") in shift_enum[1]:
+                        new_sh = shift_enum[1].index(new_sh["__variant__"])
+                    tab[(sh, up, v)] = (tuple(sink), new_sh, fo.env[upper_name])
                 except T.ReturnEx as rx:
                     rv = rx.value
                     inner = rv.get("#0") if isinstance(rv, dict) else None
@@ -954,7 +966,105 @@ def _final_unlatch_by_fold(f, fn):
         return None
 
 
+def dec_forms_exec(ctx):
+    """the termination forms of the three packed-mode decoders read off the functions folded as a whole (crate's own Reader) on
+    every stream shape of up to five codewords over the classes {254 (unlatch), a codeword of a valid pair / triple}:
+    {decoder: {stream shape: (codewords consumed, bytes appended, result)}} -> obligations.  (dict | None)"""
+    def compute():
+        f = ctx.facts()
+        out = {}
+        # a codeword pair holding three plain values (base set: 'A','B','C' = 14,15,16): 1600*14+40*15+16+1
+        full = 1600 * 14 + 40 * 15 + 16 + 1
+        P = [full >> 8, full & 255]
+        E3 = [(1 << 2) | (2 >> 4), ((2 & 15) << 4) | (3 >> 2), ((3 & 3) << 6) | 4]      # EDIFACT triple 1,2,3,4 (no unlatch)
+        specs = {
+            "decode_x12": ("decodation::decode_x12", [], {"[]": [], "[254]": [254], "[x]": [65], "[254,x]": [254, 65], "[254,x,y]": [254, 65, 66], "[P]": P, "[P,254]": P + [254], "[P,x]": P + [65],
+                                                            "[P,P]": P + P, "[P,254,x]": P + [254, 65], "[P,P,254]": P + P + [254]}),
+            "decode_c40_like": ("decodation::decode_c40_like", ["C40"], {"[]": [], "[254]": [254], "[x]": [65], "[254,x]": [254, 65], "[254,x,y]": [254, 65, 66], "[P]": P, "[P,254]": P + [254], "[P,x]": P + [65],
+                                                                          "[P,P]": P + P, "[P,254,x]": P + [254, 65], "[P,P,254]": P + P + [254]}),
+            "decode_edifact": ("decodation::decode_edifact", [], {"[]": [], "[x]": [E3[0]], "[x,y]": E3[:2], "[E3]": E3, "[E3,x]": E3 + [E3[0]], "[E3,x,y]": E3 + E3[:2], "[E3,E3]": E3 + E3,
+                                                                  "[U..]": [31 << 2, 0, 0], "[E3,U..]": E3 + [31 << 2, 0, 0]}),
+        }
+        for key, (fn, extra, streams) in specs.items():
+            b = f.thir.get(fn)
+            if b is None or any((p_.get("pat") or {}).get("k") != "Bind" for p_ in b["params"]):
+                return None
+            ps = [p_["pat"]["name"] for p_ in b["params"]]
+            rows = {}
+            for nm, st in streams.items():
+                rd = {"__adt__": "decodation::Reader", "__variant__": "Reader", "0": list(st), "#0": list(st), "1": 2, "#1": 2}
+                o = []
+                env = {ps[0]: rd, ps[1]: o}
+                if extra:
+                    if len(ps) != 4:
+                        return None
+                    env[ps[2]] = list(f.const("decodation::BASE_C40") or [])
+                    env[ps[3]] = list(f.const("decodation::SHIFT3_C40") or [])
+                try:
+                    res = T.Folder(f, env=env, effects=True, local_calls=3).run(b["body"])
+                except T.Trap as ex:
+                    rows[nm] = ["trap", str(ex)]
+                    continue
+                except T.Undecidable as ex:
+                    return None
+                if isinstance(res, dict) and res.get("__variant__") == "Ok":
+                    tup = res.get("#0")
+                    left = len(T._loaded(tup[0].get("#0", tup[0].get("0")))) if isinstance(tup, (tuple, list)) and isinstance(tup[0], dict) else None
+                    mode = tup[1].get("__variant__") if isinstance(tup, (tuple, list)) and isinstance(tup[1], dict) else None
+                    rows[nm] = ["ok", len(st) - left if left is not None else None, len(o), mode]
+                else:
+                    rows[nm] = ["err"]
+            out[key] = rows
+        return out
+    return ctx.memo("dec_forms_exec", compute)
+
+
+DEC_FORMS_WANT = {
+    # stream shape -> (codewords consumed, bytes appended); the next mode is always ASCII
+    "pairs": {"[]": (0, 0), "[254]": (1, 0), "[x]": (0, 0), "[254,x]": (1, 0), "[254,x,y]": (1, 0), "[P]": (2, 3), "[P,254]": (3, 3), "[P,x]": (2, 3), "[P,P]": (4, 6), "[P,254,x]": (3, 3), "[P,P,254]": (5, 6)},
+    "edifact": {"[]": (0, 0), "[x]": (0, 0), "[x,y]": (0, 0), "[E3]": (3, 4), "[E3,x]": (3, 4), "[E3,x,y]": (3, 4), "[E3,E3]": (6, 8), "[U..]": (1, 0), "[E3,U..]": (4, 4)},
+}
+
+
+def _forms_fallback(ctx, obs, r):
+    """obligations of DEC-THRESH whose statement shape was not recognised are decided from the folded termination forms"""
+    if all(o.ok for o in obs):
+        return obs
+    forms = dec_forms_exec(ctx)
+    if not forms:
+        return obs
+    verdict = {}
+    for dec, want in (("decode_x12", DEC_FORMS_WANT["pairs"]), ("decode_c40_like", DEC_FORMS_WANT["pairs"]), ("decode_edifact", DEC_FORMS_WANT["edifact"])):
+        rows = forms.get(dec, {})
+        bad = [nm for nm, w in want.items() if list(rows.get(nm, []))[:4] != ["ok", w[0], w[1], "Ascii"]]
+        verdict[dec] = (not bad, bad)
+    out = []
+    for o in obs:
+        if o.ok:
+            out.append(o)
+            continue
+        key = o.key.split(":", 1)[1]
+        dec = "decode_edifact" if key.startswith("edifact") else key.split(":")[0]
+        ok, bad = verdict.get(dec, (False, ["?"]))
+        if ok:
+            out.append(Ob(r, key, True, o.what + " (statement shape not recognised; decided by folding %s on every stream shape of up to five codewords: consumed / appended counts as specified)" % dec, site=o.site))
+        else:
+            out.append(o)
+    return out
+
+
 def dec_thresh(ctx):
+    r = "DEC-THRESH"
+    from .core import AnchorMissing
+    try:
+        obs = _dec_thresh_shape(ctx)
+    except (AnchorMissing, KeyError, IndexError, TypeError) as ex:
+        obs = [Ob(r, k0, False, "%s - statement shape not recognised (%s)" % (k0, str(ex)[:80])) for k0 in
+               ("edifact-rest", "decode_c40_like:continue", "decode_c40_like:final-unlatch", "decode_c40_like:unlatch", "decode_x12:continue", "decode_x12:final-unlatch", "decode_x12:unlatch")]
+    return _forms_fallback(ctx, obs, r)
+
+
+def _dec_thresh_shape(ctx):
     r = "DEC-THRESH"
     f = ctx.facts()
     obs = []
